@@ -13,7 +13,7 @@ def split_body(b):
 
 
 def blank(ev, case):
-    return dict(ev=ev, case=case, who=0, nr="", d1=0, n1="", d2=0, n2="", flag="", ret=0, rid=0, kind="", body=[], dents=[], inodes=[], op="")
+    return dict(ev=ev, case=case, who=0, nr="", d1=0, n1="", d2=0, n2="", flag="", ret=0, rid=0, kind="", body=[], dents=[], inodes=[], op="", inj=False)
 
 
 def snap_event(ev, case, snap):
@@ -89,6 +89,7 @@ def project_fs(res, case_spec):
         s = blank("sys", cid)
         s["who"] = who
         s["ret"] = e.get("ret", 0)
+        s["inj"] = "injected" in e
         tree1 = e.get("dfd_class") == "tree"
         s["d1"] = e.get("dfd_id", 0) if tree1 else 0
         s["n1"] = e.get("path", "")
